@@ -26,6 +26,7 @@ type recSub struct {
 	evs  []types.EpochEvent
 	real *aggsender.GenericSubscriberImpl[types.EpochEvent]
 	ch   <-chan types.EpochEvent
+	ch2  <-chan types.EpochEvent // a second subscription under the SAME name (two components of the node naming themselves alike)
 }
 
 func (r *recSub) Subscribe(string) <-chan types.EpochEvent { return nil }
@@ -40,6 +41,15 @@ func (r *recSub) Publish(e types.EpochEvent) {
 func (s *epState) drain(r *Run) {
 	if s.sub == nil || s.sub.ch == nil || len(s.sub.evs) == 0 {
 		return
+	}
+	if s.sub.ch2 != nil {
+		// the second subscription first (with a short patience once something has already failed)
+		c2 := s.sub.ch2
+		s.sub.ch2 = nil
+		first := s.sub.ch
+		s.sub.ch = c2
+		s.drain(r)
+		s.sub.ch = first
 	}
 	got := map[uint64]int{}
 	n := 0
@@ -117,6 +127,7 @@ func epExec(r *Run, s *epState, line string) {
 		s.bn = &fakeBlockNotifier{ch: make(chan types.EventNewBlock)}
 		s.sub = &recSub{real: aggsender.NewGenericSubscriberImpl[types.EpochEvent]()}
 		s.sub.ch = s.sub.real.Subscribe("verif")
+		s.sub.ch2 = s.sub.real.Subscribe("verif")
 		s.blocks, s.notified, s.lastEp, s.lines = nil, map[uint64]uint64{}, 0, []string{line}
 		n, err := aggsender.NewEpochNotifierPerBlock(s.bn, lg(),
 			aggsender.ConfigEpochNotifierPerBlock{StartingEpochBlock: s.S, NumBlockPerEpoch: uint(s.N), EpochNotificationPercentage: uint(s.P)}, s.sub)
